@@ -178,3 +178,82 @@ Definition set_ev_names (e : evaluation) (v : list (list Z)) : evaluation :=
    with that many columns exactly when every row has that many entries (any other value only has to differ from 2) *)
 Definition ndim_of (ncols : nat) (p : list (list Qc)) : Z :=
   if forallb (fun r => Nat.eqb (length r) ncols) p then 2%Z else 1%Z.
+
+(* ==== vocabulary of the source translations of ModelEvaluation.save_h5 / load_h5 and of the string codec helpers they call
+   (harness/src_functions.py C20_EVIO_*; Generated/SrcEvalIO.v; proofs Proofs/C20SourceIO.v) ====
+   What an HDF5 file holds while batchie writes / reads it: [evraw] = its datasets BY NAME, in creation order.  The
+   translated save_h5 builds it with one [evraw_create] per create_dataset call, the translated load_h5 reads it back with
+   one [evraw_read_*] per f[NAME][:].  A dataset is one of four array kinds; the 2-d float array carries shape[1] (so that a
+   matrix without rows still has its number of columns: the (0, m) predictions of an evaluation without experiments).
+   Strings: [pyname] is a str element, [bstr] a UTF-8 ENCODED one (an element of a bytes array).  Both are the same Coq type
+   (the codec is the identity on valid NUL-free strings, header), but the translator treats the two type NAMES as different,
+   so a missing / doubled encode_string_array or decode_string_array is refused.
+   Error tags: 30 KeyError (no dataset of that name), 31 create_dataset of an existing name, 32 the stored array is of
+   another kind than the reader expects, 33 / 34 see the codec below. *)
+From Coq Require String.
+Import String.StringSyntax.
+Local Delimit Scope string_scope with string.
+
+Definition pyname : Type := list Z.
+Definition bstr : Type := list Z.
+Definition mat2 : Type := (nat * list (list Qc))%type.       (* (shape[1], rows) *)
+Inductive evval : Type :=
+| EV_F2 (a : mat2)              (* 2-d float *)
+| EV_F1 (a : list Qc)           (* 1-d float *)
+| EV_I1 (a : list Z)            (* 1-d int *)
+| EV_S1 (a : list bstr).        (* 1-d bytes *)
+Definition evraw : Type := list (String.string * evval).
+
+(* the names batchie uses *)
+Definition EK_predictions : String.string := "predictions"%string.
+Definition EK_observations : String.string := "observations"%string.
+Definition EK_chain_ids : String.string := "chain_ids"%string.
+Definition EK_sample_names : String.string := "sample_names"%string.
+
+(* h5py.File(fn, "w"): a new, empty file *)
+Definition evraw_empty : evraw := [].
+Fixpoint evraw_find (k : String.string) (l : evraw) : option evval :=
+  match l with
+  | [] => None
+  | (k', v) :: r => if String.eqb k' k then Some v else evraw_find k r
+  end.
+(* f.create_dataset(k, data=v, compression="gzip"): a new dataset; a name that exists is refused *)
+Definition evraw_create (w : evraw) (k : String.string) (v : evval) : result evraw :=
+  match evraw_find k w with
+  | Some _ => Err 31%Z
+  | None => Ok (w ++ [(k, v)])
+  end.
+(* f[k][:], by the kind of array the caller goes on to use *)
+Definition evraw_read_f2 (w : evraw) (k : String.string) : result mat2 :=
+  match evraw_find k w with Some (EV_F2 a) => Ok a | Some _ => Err 32%Z | None => Err 30%Z end.
+Definition evraw_read_f1 (w : evraw) (k : String.string) : result (list Qc) :=
+  match evraw_find k w with Some (EV_F1 a) => Ok a | Some _ => Err 32%Z | None => Err 30%Z end.
+Definition evraw_read_i1 (w : evraw) (k : String.string) : result (list Z) :=
+  match evraw_find k w with Some (EV_I1 a) => Ok a | Some _ => Err 32%Z | None => Err 30%Z end.
+Definition evraw_read_s1 (w : evraw) (k : String.string) : result (list bstr) :=
+  match evraw_find k w with Some (EV_S1 a) => Ok a | Some _ => Err 32%Z | None => Err 30%Z end.
+
+(* the representation map  raw file -> (predictions.shape[1], [eval_file]): every dataset of the model's file is there under
+   its name, with its kind *)
+Definition evraw_close (w : evraw) : result (nat * eval_file) :=
+  dor p <- evraw_read_f2 w EK_predictions;
+  dor o <- evraw_read_f1 w EK_observations;
+  dor c <- evraw_read_i1 w EK_chain_ids;
+  dor s <- evraw_read_s1 w EK_sample_names;
+  Ok (fst p, (snd p, o, c, s)).
+
+(* self.predictions as a 2-d array: the rows the object stores, with shape[1] = [ncols] *)
+Definition as_mat2 (ncols : nat) (rows : list (list Qc)) : mat2 := (ncols, rows).
+(* cls(...) in a classmethod of ModelEvaluation (no subclass in the tree): a fresh instance, initialised by the
+   translated __init__ (which overwrites all four attributes) *)
+Definition ev_blank : evaluation := {| ev_preds := []; ev_obs := []; ev_chains := []; ev_names := [] |}.
+
+(* the string codec helpers batchie.data.encode_string_array / decode_string_array on 1-d arrays (translated too):
+   np.char.encode(a) / np.char.decode(a, "utf-8") are the identity on the valid NUL-free strings of an array WITH elements;
+   on an array WITHOUT elements numpy answers an empty float64 array, which cannot be stored / decoded as strings: tag 33
+   (the defect repaired in /repo 6d95451; the helpers guard the call with `arr.size == 0`).
+   np.empty(a.shape, dtype=...) where a has no element is THE array without elements of that shape, i.e. a itself as a
+   value; elsewhere its content is unspecified, not modelled: tag 34. *)
+Definition ev_arr_empty (a : list (list Z)) : bool := match a with [] => true | _ :: _ => false end.        (* a.size == 0 *)
+Definition ev_char_codec (a : list (list Z)) : result (list (list Z)) := if ev_arr_empty a then Err 33%Z else Ok a.
+Definition ev_empty_like (a : list (list Z)) : result (list (list Z)) := if ev_arr_empty a then Ok a else Err 34%Z.
